@@ -124,6 +124,8 @@ def create_formula(rep, add_formula):
             rhs = create_formula(args[-1], add_formula)
             if rep.name == ">" or rep.name == ">:":
                 lhs = 1 if len(args) == 1 else create_number(args[0])
+                if lhs < 0:
+                    raise RuntimeError("invalid temporal formula: {}".format(rep))
                 return rhs if lhs == 0 else add_formula(TelNext(lhs, rhs, rep.name == ">:"))
             lhs = None if len(args) == 1 else create_formula(args[0], add_formula)
             if rep.name in (";>", ";>:"):
